@@ -420,11 +420,12 @@ def padding(ctx, col):
     repo = ctx.repo
     R_ = "R-PAD"
     d = repo.get_def(f"{FX}.PopulationFeatureExtractor._get_impl")
-    a = {norm_src(s.targets[0]): norm_src(s.value) for s in d.node.body if isinstance(s, ast.Assign)}
-    col.check(a.get("vals") == "[f.get(feature, **kwargs) for f in self._features]", R_, d.qualname, d.loc(), "one value row per tree, in order", "", f"{a.get('vals')}", stmt="rows")
-    col.check(a.get("len_max") == "max((len(v) for v in vals))", R_, d.qualname, d.loc(), "rows are padded to the longest row", "", f"{a.get('len_max')}", stmt="max")
-    col.check(a.get("v") == "np.stack([padding1d(len_max, v, dtype=np.float32) for v in vals])", R_, d.qualname, d.loc(), "every row is padded and the rows are stacked in order", "",
-              f"{a.get('v')}", stmt="stack")
+    col.text_group(R_, d.qualname, d, [
+        ("one value row per tree, in order", ["vals = [f.get(feature, **kwargs) for f in self._features]"], "rows"),
+        ("rows are padded to the longest row", ["len_max = max(len(v) for v in vals)", "len_max = max(map(len, vals))"], "max"),
+        ("every row is padded and the rows are stacked in order", ["v = np.stack([padding1d(len_max, v, dtype=np.float32) for v in vals])",
+                                                                    "return np.stack([padding1d(len_max, v, dtype=np.float32) for v in vals])"], "stack")],
+        fixed=("feature", "kwargs", "padding1d"))
     i = repo.get_def(f"{FX}.PopulationFeatureExtractor.__init__")
     col.check("self._features = [Features(t) for t in self._population]" in norm_src(i.node), R_, i.qualname, i.loc(), "one Features object per tree, in population order", "", "", stmt="feats")
     p = repo.get_def("swcgeom.utils.numpy_helper.padding1d")
